@@ -349,7 +349,7 @@ func checkC01(c *chk.Ctx) {
 		rpc := map[string]any{"name": p.sh.meth, "verb": p.cc.Verb, "fields": fields, "pathVars": pathVars, "query": query}
 		seg := &trace.Segment{ID: i, Meta: p}
 		seg.Lines = append(seg.Lines, jsonLine(map[string]any{"event": "Call", "case": id, "note": p.note,
-			"call": map[string]any{"rpc": rpc, "value": toks(p.req, fields), "zero": toks(zero, fields), "ctype": p.cc.Ctype, "resp": outTok, "handler": "ok"}}))
+			"call": map[string]any{"rpc": rpc, "value": toks(p.req, fields), "zero": toks(zero, fields), "ctype": p.cc.Ctype, "resp": outTok, "handler": "ok", "hdrs": []any{}}}))
 		es := evs[fmt.Sprintf("%d/1", id)]
 		sort.SliceStable(es, func(a, b int) bool { return es[a]["seq"].(float64) < es[b]["seq"].(float64) })
 		for _, e := range es {
@@ -415,7 +415,7 @@ func checkC01(c *chk.Ctx) {
 						decodes = proto.Unmarshal(body, bm) == nil && len(bm.GetUnknown()) == 0
 					}
 				}
-				seg.Lines = append(seg.Lines, jsonLine(map[string]any{"event": "Sent", "verb": e["verb"], "litsOK": litsOK, "pathVals": pathVals, "queryVals": queryVals,
+				seg.Lines = append(seg.Lines, jsonLine(map[string]any{"event": "Sent", "verb": e["verb"], "litsOK": litsOK, "pathVals": pathVals, "queryVals": queryVals, "hdrVals": []any{},
 					"hasBody": e["hasBody"] == true && len(body) > 0, "bodyDecodes": decodes, "bodyVals": toks(bm, fields), "ctype": ct, "raw": firstN(path+"?"+fmt.Sprint(e["rawQuery"]), 200)}))
 			case "HandlerSaw":
 				m, err := val.Decode(files2, p.sh.in, unb64s(e["valB64"]))
